@@ -685,7 +685,7 @@ func init() {
 		for bi := 0; bi < 60; bi++ {
 			b := randomBatch(rb, bi, o.seed+77, 4, false)
 			for can := range b.Handlers {
-				b.Handlers[can] = []string{"okfx", "okjoin", "okfxjoin", "ok"}[(bi+len(can))%4]
+				b.Handlers[can] = []string{"okfx", "okjoin", "okfxjoin", "ok", "okfxinv"}[(bi+len(can))%5]
 			}
 			b.Handlers["store/add"] = []string{"okjoin", "okfx", "okfxjoin"}[bi%3]
 			if err := b.W.Build(); err != nil {
